@@ -8,5 +8,6 @@ CONSTANTS
   Workers = 2
   BatchMax = 2
   FixF3 = TRUE
+  ReschedKeepsFlag = TRUE
 INVARIANTS TypeOK C37_AtMostOnce C37_RejectedNeverRuns C37_OnlyAdmittedRuns C37_CloseWaits C37_NoOverlap C37_Order OneDrainPerShard
 CHECK_DEADLOCK TRUE
